@@ -74,12 +74,12 @@ func genDocURL(t *rapid.T, label string, tok string, where string, opt DocURLOpt
 		nd := rapid.IntRange(0, 3).Draw(t, label+".ndir")
 		for i := 0; i < nd; i++ {
 			dirs := docDirs
-			if !opt.Prose && rapid.IntRange(0, 5).Draw(t, label+".freedir") == 0 {
+			if !opt.Prose && rapid.IntRange(0, 5).Draw(t, label+".freedir") == 5 {
 				dirs = docDirsFree
 			}
 			sb.WriteString("/" + pick(t, label+".dir", dirs))
 		}
-		if opt.RFCQuery && rapid.IntRange(0, 5).Draw(t, label+".emptyseg") == 0 {
+		if opt.RFCQuery && rapid.IntRange(0, 5).Draw(t, label+".emptyseg") == 5 {
 			sb.WriteString("/")
 			u.Shape += "+emptyseg"
 		}
@@ -493,7 +493,7 @@ func GenXMLDoc(t *rapid.T, flavor string, opt DocURLOpt) XMLDoc {
 		st.depth++
 	}
 	return XMLDoc{Flavor: flavor, Decl: rapid.IntRange(0, 3).Draw(t, "xml.decl"), Pretty: rapid.IntRange(0, 2).Draw(t, "xml.pretty"),
-		CRLF: rapid.IntRange(0, 4).Draw(t, "xml.crlf") == 0, Root: root, Planted: st.planted, Depth: st.depth}
+		CRLF: rapid.IntRange(0, 4).Draw(t, "xml.crlf") == 4, Root: root, Planted: st.planted, Depth: st.depth}
 }
 
 func (st *xmlGenState) plant(t *rapid.T, depth int, where string, prose bool) string {
@@ -598,7 +598,7 @@ func (st *xmlGenState) attrLeaf(t *rapid.T, depth int) XNode {
 	ua := XAttr{Name: spec[1], Value: st.plant(t, depth, "attr", false), Quote: pick(t, "xml.quote", []string{`"`, `'`}), Ent: rapid.IntRange(0, 2).Draw(t, "xml.ent")}
 	pos := rapid.IntRange(0, len(attrs)).Draw(t, "xml.attrpos")
 	attrs = append(attrs[:pos], append([]XAttr{ua}, attrs[pos:]...)...)
-	if rapid.IntRange(0, 3).Draw(t, "xml.secondattr") == 0 {
+	if rapid.IntRange(0, 3).Draw(t, "xml.secondattr") == 3 {
 		attrs = append(attrs, XAttr{Name: "data-alt", Value: st.plant(t, depth, "attr", false), Quote: `"`, Ent: rapid.IntRange(0, 2).Draw(t, "xml.ent")})
 	}
 	el.Attrs = attrs
@@ -613,7 +613,7 @@ func (st *xmlGenState) htmlLeaf(t *rapid.T, depth int) XNode {
 		html += ` <img src='` + st.plant(t, depth, "cdata-html", true) + `' alt="y"/>`
 	}
 	html += `</p>`
-	if rapid.IntRange(0, 2).Draw(t, "xml.htmlmode") == 0 {
+	if rapid.IntRange(0, 2).Draw(t, "xml.htmlmode") == 2 {
 		// entity-escaped HTML inside a text node (&lt;p&gt;…)
 		for i := len(st.planted) - 1; i >= 0 && st.planted[i].Where == "cdata-html"; i-- {
 			st.planted[i].Where = "text-html"
@@ -764,15 +764,15 @@ func genM3URI(t *rapid.T, tok string, where string, ext string) DocURL {
 //     kind-specific tag seen);
 //   - URIs contain no comma, quote or white space.
 func GenM3U8Doc(t *rapid.T) M3U8Doc {
-	d := M3U8Doc{Master: rapid.Bool().Draw(t, "m3u.master"), CRLF: rapid.IntRange(0, 3).Draw(t, "m3u.crlf") == 0}
+	d := M3U8Doc{Master: rapid.Bool().Draw(t, "m3u.master"), CRLF: rapid.IntRange(0, 3).Draw(t, "m3u.crlf") == 3}
 	if v := rapid.IntRange(0, 7).Draw(t, "m3u.version"); v > 0 {
 		d.Header = append(d.Header, "#EXT-X-VERSION:"+strconv.Itoa(v))
 	}
 	filler := func() {
 		switch rapid.IntRange(0, 7).Draw(t, "m3u.filler") {
-		case 0:
+		case 6:
 			d.Entries = append(d.Entries, M3Entry{K: "blank"})
-		case 1:
+		case 7:
 			d.Entries = append(d.Entries, M3Entry{K: "comment", Attrs: "# a comment, not a tag: https://comment.example.com/decoy.ts"})
 		}
 	}
@@ -781,11 +781,11 @@ func GenM3U8Doc(t *rapid.T) M3U8Doc {
 		if rapid.Bool().Draw(t, "m3u.hasseq") {
 			d.Header = append(d.Header, "#EXT-X-MEDIA-SEQUENCE:"+strconv.Itoa(rapid.IntRange(0, 5000).Draw(t, "m3u.seq")))
 		}
-		if rapid.IntRange(0, 2).Draw(t, "m3u.pltype") == 0 {
+		if rapid.IntRange(0, 2).Draw(t, "m3u.pltype") == 2 {
 			d.Header = append(d.Header, "#EXT-X-PLAYLIST-TYPE:"+pick(t, "m3u.pt", []string{"VOD", "EVENT"}))
 		}
 		n := rapid.IntRange(1, 24).Draw(t, "m3u.nseg")
-		if rapid.IntRange(0, 60).Draw(t, "m3u.big") == 0 {
+		if rapid.IntRange(0, 60).Draw(t, "m3u.big") == 60 {
 			n = rapid.IntRange(1020, 1100).Draw(t, "m3u.nbig") // beyond the decoder's initial capacity of 1024 segments
 		}
 		for i := 0; i < n; i++ {
@@ -794,13 +794,13 @@ func GenM3U8Doc(t *rapid.T) M3U8Doc {
 			e := M3Entry{K: "seg", URI: u.Text, Attrs: pick(t, "m3u.dur", []string{"9.009,", "10,", "4.5,Title", "6.0,title, with comma", "2,"})}
 			if n < 100 {
 				switch rapid.IntRange(0, 11).Draw(t, "m3u.pre") {
-				case 0:
+				case 8:
 					e.Pre = append(e.Pre, "#EXT-X-DISCONTINUITY")
-				case 1:
+				case 9:
 					e.Pre = append(e.Pre, `#EXT-X-KEY:METHOD=AES-128,URI="https://keys.example.com/decoy.key",IV=0x00000000000000000000000000000001`)
-				case 2:
+				case 10:
 					e.Pre = append(e.Pre, `#EXT-X-MAP:URI="init-decoy.mp4"`)
-				case 3:
+				case 11:
 					e.Pre = append(e.Pre, "#EXT-X-PROGRAM-DATE-TIME:2024-01-02T03:04:05.000Z")
 				}
 				d.Entries = append(d.Entries, e)
@@ -839,7 +839,7 @@ func GenM3U8Doc(t *rapid.T) M3U8Doc {
 			entries = append(entries, e)
 		}
 	}
-	if rapid.IntRange(0, 3).Draw(t, "m3u.cc") == 0 {
+	if rapid.IntRange(0, 3).Draw(t, "m3u.cc") == 3 {
 		entries = append(entries, M3Entry{K: "media", Attrs: `TYPE=CLOSED-CAPTIONS,GROUP-ID="cc",NAME="CC1",INSTREAM-ID="CC1"`})
 	}
 	// variants; variant i references every group when i == 0 (so that each group is referenced), else a random subset
@@ -1004,7 +1004,7 @@ func GenS3Bucket(t *rapid.T) S3Bucket {
 		b.Delimiter = "/"
 		b.DelimEnc = rapid.Bool().Draw(t, "s3.delimenc")
 	}
-	if rapid.IntRange(0, 3).Draw(t, "s3.maxkeys") == 0 {
+	if rapid.IntRange(0, 3).Draw(t, "s3.maxkeys") == 3 {
 		b.MaxKeys = rapid.IntRange(1, 30).Draw(t, "s3.maxkeysv")
 	}
 	// a prefix tree: a few directories (nested up to 3 levels), files spread over them and over the root
@@ -1030,20 +1030,20 @@ func GenS3Bucket(t *rapid.T) S3Bucket {
 	for i := 0; i < nobj; i++ {
 		d := dirs[rapid.IntRange(0, len(dirs)-1).Draw(t, "s3.dir")]
 		name := pick(t, "s3.file", s3Files)
-		if rapid.IntRange(0, 2).Draw(t, "s3.numbered") == 0 {
+		if rapid.IntRange(0, 2).Draw(t, "s3.numbered") == 2 {
 			name = strconv.Itoa(i) + "-" + name
 		}
 		var size int64
-		if rapid.IntRange(0, 5).Draw(t, "s3.zero") != 0 {
+		if rapid.IntRange(0, 5).Draw(t, "s3.zero") != 5 {
 			size = int64(rapid.IntRange(1, 5_000_000).Draw(t, "s3.size"))
 		}
 		add(d+name, size)
 	}
 	for _, d := range dirs[1:] {
 		switch rapid.IntRange(0, 3).Draw(t, "s3.marker") {
-		case 0:
+		case 2:
 			add(d, 0) // the zero-size "folder" object consoles create
-		case 1:
+		case 3:
 			add(strings.TrimSuffix(d, "/"), int64(rapid.IntRange(0, 9).Draw(t, "s3.samename"))) // a key equal to a folder name
 		}
 	}
